@@ -15,11 +15,12 @@ PROP = "C08"
 RULE = ("random triples (target flow F = SYN + application request in 1-4 segments + FIN|ACK; other traffic H = 1-5 other TCP "
         "flows incl. tuples differing from F in exactly one field, validated and mid-request (HTTP, RPC, STUN, SSH, SMB), "
         "the IPv4-mapped twin of F's endpoints, SYN/FIN|ACK/RST/bare-ACK segments on F's own tuple, ICMP / ICMPv6 error messages quoting F's segments, rejected data segments on F's tuple before F is validated, UDP "
-        "requests, ARP, ICMP echo, router advertisements / solicitations / redirects / listener queries / ICMP errors about other flows; a random order-preserving interleaving). Each frame's canonical reply in the interleaving is "
-        "compared with its reply when F (resp. H) runs alone on a fresh table. Non-trivial = interleavings where an accepted "
+        "requests (incl. pairs of datagrams from two clients to one service that differ in one bit of their leading bytes), ARP, ICMP echo, router advertisements / solicitations / redirects / listener queries / ICMP errors about other flows; a random order-preserving interleaving). Each frame's canonical reply in the interleaving is "
+        "compared with its reply when F (resp. H) runs alone on a fresh table. One shard additionally runs 14 multi-segment sessions alone and in a crowd (66 000 other connections validated before the session starts, 66 000 more between its first and second segment). Non-trivial = interleavings where an accepted "
         "data segment of another flow falls between two segments of F; distinct = distinct abstract interleavings (kinds, "
         "flow indices, order).")
-ASSUME = ["besides the canonical reply, the IPv4 identification / DF / TOS (IPv6: version, traffic class, flow label) of the reply are compared",
+ASSUME = ["'alone' means after a reset of the connection table; for the one-bit twin datagrams and for 8 % of the target flows it means a responder process started for that frame / flow only",
+          "besides the canonical reply, the IPv4 identification / DF / TOS (IPv6: version, traffic class, flow label) of the reply are compared",
           "H never contains data segments that would be *accepted* on F's own flow (those legitimately change F's stream)",
           "wall-clock fields (HTTP Date, SMB times) are masked structurally before comparison; checksums are not compared"]
 KNOWN_COLLISION = "cookie-collision"
@@ -123,6 +124,19 @@ def execute(ctx, frames):
     return [canon8(r.reply) if r.kind == "R" else ("PANIC" if r.kind == "P" else None) for r in ctx.send_many(frames)]
 
 
+def execute_fresh(ctx, frames):
+    """The strongest 'alone': a responder process started for these frames only (a table reset clears the connection
+    table - a process that has seen nothing else has no other state either)."""
+    from ..driver import Driver
+    d2 = Driver(ctx.bin)
+    try:
+        d2.cfg(ctx.cfg)
+        ctx.stats["fresh_process_baselines"] += 1
+        return [canon8(r.reply) if r.kind == "R" else ("PANIC" if r.kind == "P" else None) for r in d2.frames(frames)]
+    finally:
+        d2.close()
+
+
 def triple(ctx, cfg, forced=None):
     rng = ctx.rng
     if forced:
@@ -194,6 +208,20 @@ def triple(ctx, cfg, forced=None):
             elif rng.random() < 0.3:
                 c = rpc.gen_call(rng, prog=rpc.PMAP, vers=rng.choice([2, 2, 3, 4]), proc=rng.choice([1, 1, 2]), maxauth=8)     # SET / UNSET over UDP
                 noise.append((oe.udp(gen.rnd_port(rng), rng.choice([111, gen.rnd_port(rng)]), bytes([0x7A]) + c["msg"][1:]), "udp:pmap_set"))
+            elif rng.random() < 0.5:
+                # two clients asking the same service almost the same thing: the second datagram differs from the first in one
+                # bit of its leading bytes (DNS flags / id, STUN type / id, RPC xid / version ...).  Whatever a responder
+                # remembers of the first one (a cache of serialised answers, say) must not colour the answer to the second
+                apps = gen.app_requests(rng)
+                u = rng.choice([a for a in apps if a[0] == "dns"] * 6 + [a for a in apps if a[0].startswith(("stun", "rpc"))])[1]
+                t = bytearray(u)
+                t[rng.randrange(min(8, len(t))) if rng.random() < 0.8 else rng.randrange(len(t))] ^= 1 << rng.randrange(8)
+                o2 = gen.endp(rng, cfg, oe.v6)
+                o2 = pkt.Endp(o2.cmac, oe.smac, o2.cip, oe.sip)
+                udp_dp = gen.rnd_port(rng)
+                pair = [(oe.udp(gen.rnd_port(rng), udp_dp, u), "udp:twin"), (o2.udp(gen.rnd_port(rng), udp_dp, bytes(t)), "udp:twin")]
+                rng.shuffle(pair)
+                noise.extend(pair)
             else:
                 noise.append((oe.udp(gen.rnd_port(rng), gen.rnd_port(rng), rng.choice(gen.app_requests(rng))[1]), "udp"))
         elif k == 1:
@@ -216,7 +244,7 @@ def triple(ctx, cfg, forced=None):
     pre = [(e.tcp(sp, dp, rng.getrandbits(32), (ckF + rng.choice([0, 2, 5])) & 0xFFFFFFFF, PSH | ACK, b"early" * rng.randrange(1, 4)), "own:rejected")
            for _ in range(rng.choice([0, 0, 1, 2]))]
     # --- the three executions
-    aloneF = execute(ctx, F)
+    aloneF = execute(ctx, F) if forced or rng.random() > 0.08 else execute_fresh(ctx, F)
     Hall = [f for f, _k in pre] + H
     Hkall = [k for _f, k in pre] + Hk
     aloneH = execute(ctx, Hall)
@@ -254,8 +282,9 @@ def triple(ctx, cfg, forced=None):
     # flow-less traffic (UDP, ICMP, ARP) has no history at all: each such frame of H is answered in the interleaving exactly
     # as it is answered when it is the only frame the responder sees after a reset
     solo = [(pos, i) for pos, (w, i) in enumerate(order) if w == "H" and Hkall[i].split(":")[0] in ("udp", "echo", "arp")]
-    for pos, i in rng.sample(solo, min(3, len(solo))):
-        want = execute(ctx, [Hall[i]])[0]
+    twins = [x for x in solo if Hkall[x[1]] == "udp:twin"]
+    for pos, i in twins + rng.sample(solo, min(3, len(solo))):
+        want = execute(ctx, [Hall[i]])[0] if Hkall[i] != "udp:twin" else execute_fresh(ctx, [Hall[i]])[0]
         ctx.stats["solo_comparisons"] += 1
         if want != inter[pos] and not mism:
             ctx.violation("interference:flowless", "%s frame #%d of the interleaving is answered differently than when it is the only frame sent: alone=%s interleaved=%s" % (
@@ -288,11 +317,42 @@ def reproduce_known(ctx):
             triple(ctx, cfg, forced=((ea, A[1], A[3]), [(eb, B[1], B[3])]))
 
 
+def crowded(ctx):
+    """F = a multi-segment session, H = 2 x 66 000 other connections (one accepted data segment each), part of them
+    validated before F starts, part of them between F's first and second segment: more connections than any 16-bit
+    quantity holds.  F is answered as when it runs alone."""
+    from ..applab import AppLab
+    rng = ctx.rng
+    cfg = gen.rnd_config(rng, deny=False, logger="n", level=0)
+    ctx.case(cfg)
+    lab = AppLab(ctx, cfg)
+    sessions = []
+    for _ in range(14):
+        name, stream = app_stream(rng)
+        if len(stream) < 4:
+            continue
+        segs = [x for x in cut(stream, sorted(rng.randrange(1, len(stream)) for _x in range(rng.choice([1, 1, 2])))) if x]
+        if rng.random() < 0.4:
+            segs = [stream, stream]          # the same request twice on one connection, the client acknowledging the first answer
+        sessions.append((name, segs))
+    for name, segs, alone, crowd in lab.crowded_sessions(sessions):
+        ctx.stats["crowded_sessions"] += 1
+        if any(x is not None for x in alone):
+            ctx.nontrivial("crowded", name, tuple(len(s) for s in segs))
+        if alone != crowd:
+            j = next(i for i, (a, c) in enumerate(zip(alone, crowd)) if a != c)
+            ctx.violation("interference:crowded", "segment #%d of a %s session (%d segments) is answered differently when 2 x 66 000 other connections are validated "
+                          "before it and between its first two segments: alone=%r crowded=%r" % (j, name, len(segs), (alone[j] or b"")[:40], (crowd[j] or b"")[:40]),
+                          observed=repr(crowd[j]), expected=repr(alone[j]), frames=[], note="the replay file holds the session's own frames; the 2 x 66 000 crowd connections are generated by the check (re-run it to reproduce)", extra={"segments": [s.hex()[:400] for s in segs]})
+
+
 def shard(ctx, budget_s):
     rng = ctx.rng
     deadline = time.time() + budget_s
     if ctx.shard == 0:
         reproduce_known(ctx)
+    if ctx.shard == 1 % ctx.nshards:
+        crowded(ctx)
     n = 0
     while time.time() < deadline or n == 0:
         cfg = gen.rnd_config(rng, deny=False, logger="n", level=0)
